@@ -16,7 +16,8 @@
     r = RSkip (outside the property's domain) -> no claim. *)
 From Coq Require Import ZArith List Bool String.
 From V Require Import Base.Int Base.IO Spec.StrftimeDoc Model.Items Gen.Strftime Model.Strftime Model.Format
-  Proofs.C12 Proofs.C12Str Proofs.C12Tok Proofs.C12Fam Proofs.C12View Proofs.C12All Proofs.C12Judge Proofs.C12Lenient.
+  Proofs.C12 Proofs.C12Str Proofs.C12Tok Proofs.C12Fam Proofs.C12View Proofs.C12All Proofs.C12Judge Proofs.C12Lenient
+  Proofs.C12Exact Proofs.C12Exact2 Proofs.C12Exact3 Proofs.C12Exact4.
 From V Require Import Spec.Gregorian Model.C12 Judge.C12 Proofs.C08Sweeps.
 From V Require Model.DateTime Model.Time.
 Import ListNotations.
@@ -359,3 +360,92 @@ Theorem C12_permissive_offset_never_renders : forall a,
   delayed_display a (sf_new [37; 35; 122]) = ferr.
 Proof. exact (fun a => conj (permissive_offset_fails a) (permissive_format_fails a)). Qed.
 Print Assumptions C12_permissive_offset_never_renders.
+
+(** * The EXACT item list, strict and lenient (no [norm_items])
+
+    [exact_items lenient fmt] (Proofs/C12Exact.v) is a closed description of the drained iterator:
+    text is cut into maximal runs ([Space] = longest run of white-space characters, [Literal] =
+    longest run of characters that are neither white space nor '%'); `%%` `%n` `%t` are items of
+    their own ([Literal "%"], [Space "\n"], [Space "\t"]), never merged with neighbouring text;
+    a documented specifier is the item of its table row with the padding of the modifier; a
+    composite is the exact item list of its documented expansion ([exact_simple]), not merged with
+    adjacent literals; an invalid specifier is [Error] in strict mode (rest of the input dropped,
+    except that after an incomplete "%:" the code keeps parsing) and, in lenient mode, ONE [Literal]
+    holding the '%' and the [bad_len] bytes of its source text that were accepted (a character that
+    cannot start a specifier is parsed again as text), followed by the leaked tail of the composite
+    when the invalid specifier is a padding modifier on a composite.
+
+    parse_step: one call of parse_next_item on "%" ++ r, for every valid r and both modes *)
+Theorem C12_parse_step : forall l r, utf8_valid r = true ->
+  parse_next_item l [] (37 :: r) = Val (pct_spec l r).
+Proof. exact parse_step. Qed.
+Print Assumptions C12_parse_step.
+
+(** items_exact: draining `StrftimeItems::new(fmt)` (l = false) / `new_lenient(fmt)` (l = true) on
+    EVERY valid UTF-8 string (of a length a Rust string can have) gives exactly [exact_items l fmt]:
+    no trap, within the bound, the Literal/Space distinction and the chunking included.
+    Supersedes, for the item list, C12_tokenization_all / C12_strict_items_total /
+    C12_tokenization_lenient (which are up to [norm_items]) and C12_lenient_never_errors;
+    characterises lenient mode on formats WITH invalid specifiers. *)
+Theorem C12_items_exact : forall l s, utf8_valid s = true -> blen s <= u64_max ->
+  sf_take (S (sf_bound s)) (mk_sfi s [] l) [] = Val (Some (exact_items l s)).
+Proof. exact items_exact. Qed.
+Print Assumptions C12_items_exact.
+Theorem C12_strict_items_exact : forall fmt, utf8_valid fmt = true -> blen fmt <= u64_max ->
+  strict_items fmt = Val (until_first_err (exact_items false fmt)).
+Proof. exact strict_items_exact. Qed.
+Print Assumptions C12_strict_items_exact.
+
+(** the runs are maximal: the character right after a run (if any) does not satisfy the predicate
+    of the run; by definition of [run_len] every character inside does *)
+Theorem C12_run_maximal : forall p s, utf8_valid s = true ->
+  (C12Exact.run p s <= List.length s)%nat /\
+  match next_char (skipn (C12Exact.run p s) s) with Some c => p c = false | None => True end.
+Proof. exact run_maximal. Qed.
+Print Assumptions C12_run_maximal.
+
+(** the description at work: `%%` `%n` `%t`, literals adjacent to a composite, alternating runs,
+    and the four composite tables of the code = the exact items of the documented expansions *)
+Example C12_exact_examples :
+  exact_items false (Bs "a%%b") = [Literal (Bs "a"); Literal (Bs "%"); Literal (Bs "b")] /\
+  exact_items false [32; 37; 110; 32; 9; 37; 116] = [Space [32]; Space [10]; Space [32; 9]; Space [9]] /\
+  exact_items false (Bs "/%D/") = [Literal [47]; num0 N_Month; Literal [47]; num0 N_Day; Literal [47];
+                                   num0 N_YearMod100; Literal [47]] /\
+  exact_items false (Bs "ab  cd%Y") = [Literal (Bs "ab"); Space (Bs "  "); Literal (Bs "cd"); num0 N_Year] /\
+  exact_simple (Bs "%m/%d/%y") = SF_D_FMT /\ exact_simple (Bs "%H:%M:%S") = SF_T_FMT /\
+  exact_simple (Bs "%a %b %e %H:%M:%S %Y") = SF_D_T_FMT /\ exact_simple (Bs "%I:%M:%S %p") = SF_T_FMT_AMPM.
+Proof. exact exact_examples. Qed.
+Print Assumptions C12_exact_examples.
+Example C12_lenient_invalid_examples :
+  exact_items true (Bs "%Qx %.3y%-a%-Dz") =
+    [Literal (Bs "%"); Literal (Bs "Qx"); Space (Bs " "); Literal (Bs "%.3"); Literal (Bs "y"); Literal (Bs "%-a");
+     Literal (Bs "%-D"); Literal [47]; num0 N_Day; Literal [47]; num0 N_YearMod100; Literal (Bs "z")] /\
+  exact_items true (Bs "%-:zq%") = [Literal (Bs "%-:"); Literal (Bs "zq"); Literal (Bs "%")] /\
+  exact_items false (Bs "%Qx%Y") = [IError] /\
+  exact_items false (Bs "%:x%Y") = [IError; Literal (Bs "x"); num0 N_Year] /\
+  exact_items false (Bs "%-Dx") = [IError; Literal [47]; num0 N_Day; Literal [47]; num0 N_YearMod100].
+Proof. exact lenient_examples. Qed.
+Print Assumptions C12_lenient_invalid_examples.
+Example C12_exact_inhabited : utf8_valid (Bs "%Qx %.3y%-a%-Dz") = true /\ blen (Bs "%Qx %.3y%-a%-Dz") <= u64_max.
+Proof. exact exact_inhabited. Qed.
+Print Assumptions C12_exact_inhabited.
+
+(** tightness of C12_strftime_terminates: the bound 13 * (bytes) is NOT reached; the densest
+    input is "%c" repeated, 13 items per 2 bytes *)
+Example C12_density_example :
+  List.length (exact_items false (Bs "%c%c%c%c")) = 52%nat /\ List.length (Bs "%c%c%c%c") = 8%nat.
+Proof. exact density_example. Qed.
+Print Assumptions C12_density_example.
+
+(** the rendered text, both modes: the formatter writes exactly the items of the description up to
+    the first [Error]; lenient mode has no [Error], so every invalid specifier is written as the
+    accepted part of its source text followed by the re-parsed rest (and by the leaked items of the
+    composite after `%-D`-like specifiers: "%-D" prints "%-D/08/01" for 2001-07-08) *)
+Theorem C12_display_exact : forall a l s, utf8_valid s = true -> blen s <= u64_max ->
+  delayed_display a (mk_sfi s [] l) = write_items a (until_first_err (exact_items l s)) [].
+Proof. exact display_exact. Qed.
+Print Assumptions C12_display_exact.
+Theorem C12_lenient_display_exact : forall a s, utf8_valid s = true -> blen s <= u64_max ->
+  delayed_display a (sf_new_lenient s) = write_items a (exact_items true s) [].
+Proof. exact lenient_display_exact. Qed.
+Print Assumptions C12_lenient_display_exact.
